@@ -211,27 +211,48 @@ SELECT = ("last", "first", "from_ref", "get", "nth", "take", "skip", "filter", "
 
 
 def check_delete_all(ctx, f):
-    SP = TI + "inner_splice"
-    b = ctx.body(SP)
-    ctx.analysed_fns.add(SP)
-    # the slice stops at the element lookup (its arguments are positions) and at the construction of the delete op (its id is not a selection)
-    is_seek = lambda rec: (callee(rec) or "").endswith("OpSet::seek_ops_by_index") or callee(rec) == TI + "next_delete"
-    sites = []
-    for bi, t in b.calls():
-        c = callee(t) or ""
-        if c == TI + "next_delete":
-            sites.append((bi, t, t["args"][4], "predecessors of the delete op"))
-        elif c.endswith("OpSet::add_succ_with_undo"):
-            sites.append((bi, t, t["args"][1], "successor updates"))
-    ctx.floor("delete-op constructions / successor updates in inner_splice", len(sites), 2)
-    for k, (bi, t, a, what) in util.ordinal_keys(sites, lambda it: "inner_splice|%s" % it[3]):
-        pv = b.provenance(a, through_calls=True, stop=is_seek)
-        from_seek = any(norm_fn(c).endswith("OpSet::seek_ops_by_index") for c, _ in pv.stopped)
-        names = {norm_fn(c).split("::")[-1] for c in pv.callees()}
-        for cl in pv.closures:
-            r = f.fns.get(cl)
-            if r is not None:
-                names |= {(norm_fn(tt.get("fn")) or "").split("::")[-1] for _, tt in f.calls(r)}
-        sel = sorted(names & set(SELECT))
-        ctx.ob("R3-delete-all", k, from_seek and not sel, t["sp"], "built from every op found at the element" if from_seek and not sel else
-               "the %s cover only part of the ops found at the element (selection by %s; from the element lookup: %s): deleting an element with conflicting values leaves the other values visible" % (what, sel, from_seek))
+    # who-may-build a sequence delete op: only next_delete (which takes the whole slice of found ops as predecessors)
+    ldel = [(p, t) for p, r in sorted(f.fns.items()) if r["ckey"] == ("automerge", "lib") for _, t in f.calls(r) if (callee(t) or "").endswith("op_set2::op::TxOp::list_del")]
+    ctx.floor("TxOp::list_del call sites", len(ldel), 1)
+    for p, t in ldel:
+        ok = norm_fn(p) == TI + "next_delete"
+        ctx.ob("R3-delete-all", "%s|builds a sequence delete op" % norm_fn(p).split("::")[-1], ok, t["sp"], "the one constructor over all found ops" if ok else
+               "a delete op of a sequence element is built outside next_delete: its predecessor list is whatever this site picks, not every value found at the element")
+    n_sites = 0
+    for SP in sorted(p for p, r in f.fns.items() if r["ckey"] == ("automerge", "lib") and norm_fn(p).startswith(TI) and "{closure" not in p):
+        b = cfg.body(f.fns[SP])
+        if not any((callee(t) or "").endswith("OpSet::seek_ops_by_index") for _, t in b.calls()):
+            continue
+        _check_delete_all_in(ctx, f, SP, b)
+        n_sites += 1
+    ctx.floor("TransactionInner functions that look an element up by index", n_sites, 3)
+
+
+def _check_delete_all_in(ctx, f, SP, b):
+    fn = norm_fn(SP).split("::")[-1]
+    if True:
+        # the slice stops at the element lookup (its arguments are positions) and at the construction of the delete op (its id is not a selection)
+        is_seek = lambda rec: (callee(rec) or "").endswith("OpSet::seek_ops_by_index") or callee(rec) == TI + "next_delete"
+        sites = []
+        for bi, t in b.calls():
+            c = callee(t) or ""
+            if c == TI + "next_delete":
+                sites.append((bi, t, t["args"][4], "predecessors of the delete op"))
+            elif c.endswith("OpSet::add_succ_with_undo") and any(callee(t2) == TI + "next_delete" for _, t2 in b.calls()):
+                sites.append((bi, t, t["args"][1], "successor updates"))
+        if not sites:
+            return
+        ctx.analysed_fns.add(SP)
+        if fn == "inner_splice":
+            ctx.floor("delete-op constructions / successor updates in inner_splice", len(sites), 2)
+        for k, (bi, t, a, what) in util.ordinal_keys(sites, lambda it: "%s|%s" % (fn, it[3])):
+            pv = b.provenance(a, through_calls=True, stop=is_seek)
+            from_seek = any(norm_fn(c).endswith("OpSet::seek_ops_by_index") for c, _ in pv.stopped)
+            names = {norm_fn(c).split("::")[-1] for c in pv.callees()}
+            for cl in pv.closures:
+                r = f.fns.get(cl)
+                if r is not None:
+                    names |= {(norm_fn(tt.get("fn")) or "").split("::")[-1] for _, tt in f.calls(r)}
+            sel = sorted(names & set(SELECT))
+            ctx.ob("R3-delete-all", k, from_seek and not sel, t["sp"], "built from every op found at the element" if from_seek and not sel else
+                   "the %s cover only part of the ops found at the element (selection by %s; from the element lookup: %s): deleting an element with conflicting values leaves the other values visible" % (what, sel, from_seek))
